@@ -997,8 +997,12 @@ func (p *Path) iterNext(fr *frame, it *IterV, instr *ssa.Next) Value {
 			}
 		}
 		b := s.B[i]
-		if b.IsConst() && constU(b) >= 0x80 {
-			// multi-byte: need all continuation bytes concrete
+		allConc := true
+		for j := i; j < len(s.B) && j < i+4; j++ {
+			allConc = allConc && s.B[j].IsConst()
+		}
+		if b.IsConst() && constU(b) >= 0x80 && allConc {
+			// multi-byte, all continuation bytes concrete
 			j := i + 1
 			for j < len(s.B) && j < i+4 && s.B[j].IsConst() && constU(s.B[j])&0xC0 == 0x80 {
 				j++
@@ -1016,9 +1020,9 @@ func (p *Path) iterNext(fr *frame, it *IterV, instr *ssa.Next) Value {
 				return TupleV{ts.Bool(true), p.intConst(int64(i), tInt), p.intConst(int64(r), tInt32)}
 			}
 		}
-		p.assumeASCII(b)
-		it.pos++
-		return TupleV{ts.Bool(true), p.intConst(int64(i), tInt), p.intResize(b, tUint8, tInt32)}
+		r, w := p.decodeRuneSym(s.B[i:])
+		it.pos += w
+		return TupleV{ts.Bool(true), p.intConst(int64(i), tInt), r}
 	}
 	// map
 	if it.m == nil || it.pos >= len(it.order) {
@@ -1085,4 +1089,62 @@ func (p *Path) tryErrorString(iv IfaceV) (out string) {
 		return "<symbolic message>"
 	}
 	return "<?>"
+}
+
+// decodeRuneSym decodes the UTF-8 sequence at the head of bs (len >= 1) whose
+// bytes may be symbolic, forking on the encoding class exactly as
+// unicode/utf8.DecodeRune classifies it; invalid or short sequences yield
+// U+FFFD of width 1. Returns the rune (int32 term) and its width.
+func (p *Path) decodeRuneSym(bs []*Term) (*Term, int) {
+	ts := p.ts
+	w32 := func(b *Term) *Term { return p.intResize(b, tUint8, tInt32) }
+	k := func(v int64) *Term { return p.intConst(v, tInt32) }
+	add := func(x, y *Term) *Term { return p.binop(token.ADD, tInt32, x, y, tInt32, token.NoPos).(*Term) }
+	sub := func(x, y *Term) *Term { return p.binop(token.SUB, tInt32, x, y, tInt32, token.NoPos).(*Term) }
+	mul := func(x *Term, c int64) *Term { return p.binop(token.MUL, tInt32, x, k(c), tInt32, token.NoPos).(*Term) }
+	bad := func() (*Term, int) { return k(0xFFFD), 1 }
+	in := func(b *Term, lo, hi byte) bool {
+		c := p.byteInRange(b, lo, hi)
+		if c.IsConst() {
+			return c.IsTrue()
+		}
+		return p.branch(c, "utf8")
+	}
+	b0 := bs[0]
+	if in(b0, 0x00, 0x7F) {
+		return w32(b0), 1
+	}
+	cont := func(j int, lo, hi byte) bool { return j < len(bs) && in(bs[j], lo, hi) }
+	tail := func(b *Term) *Term { return sub(w32(b), k(0x80)) }
+	switch {
+	case in(b0, 0xC2, 0xDF):
+		if !cont(1, 0x80, 0xBF) {
+			return bad()
+		}
+		return add(mul(sub(w32(b0), k(0xC0)), 64), tail(bs[1])), 2
+	case in(b0, 0xE0, 0xEF):
+		lo, hi := byte(0x80), byte(0xBF)
+		if in(b0, 0xE0, 0xE0) {
+			lo = 0xA0
+		} else if in(b0, 0xED, 0xED) {
+			hi = 0x9F
+		}
+		if !cont(1, lo, hi) || !cont(2, 0x80, 0xBF) {
+			return bad()
+		}
+		return add(add(mul(sub(w32(b0), k(0xE0)), 4096), mul(tail(bs[1]), 64)), tail(bs[2])), 3
+	case in(b0, 0xF0, 0xF4):
+		lo, hi := byte(0x80), byte(0xBF)
+		if in(b0, 0xF0, 0xF0) {
+			lo = 0x90
+		} else if in(b0, 0xF4, 0xF4) {
+			hi = 0x8F
+		}
+		if !cont(1, lo, hi) || !cont(2, 0x80, 0xBF) || !cont(3, 0x80, 0xBF) {
+			return bad()
+		}
+		return add(add(add(mul(sub(w32(b0), k(0xF0)), 262144), mul(tail(bs[1]), 4096)), mul(tail(bs[2]), 64)), tail(bs[3])), 4
+	}
+	_ = ts
+	return bad()
 }
